@@ -114,7 +114,59 @@ def solo(host, kind, mode):
     return _solo[k]
 
 
+REAL_OK = [k for k, v in BAD.items() if isinstance(v, dict) and all(f[1] == '*' and f[2] not in ('refuse', 'timeout', 'stall') for f in v.get('faults', []))] + ['refused']     # same server serves the single-target run and the list run: only index-independent scripts
+
+
+def eval_real(case):
+    """Engine B: the real process with free-running worker threads against real sockets."""
+    kinds, mode, threads = list(case['kinds']), case['mode'], case['threads']
+    specs = []
+    for k in kinds:
+        if k in HEALTHY:
+            specs.append(dict(HEALTHY[k], banner='SSH-2.0-OpenSSH_9.3'))
+        elif k == 'refused':
+            specs.append(None)
+        else:
+            specs.append(dict(BAD[k]))
+    peers = [fakenet.peer_from_spec(sp) for sp in specs if sp is not None]
+    fails = []
+    with drive.RealServers(peers) as rs:
+        ports = iter(rs.ports)
+        targets = ['127.0.0.1:%d' % (next(ports) if sp is not None else 1) for sp in specs]
+
+        def run(tl, k):
+            tf = drive.tmpfile('\n'.join(tl) + '\n')
+            try:
+                return drive.run_subprocess(MODES[mode] + ['--skip-rate-test', '-t', '2', '--threads', str(k), '-T', tf])
+            finally:
+                os.unlink(tf)
+        solos = [run([t], 1) for t in targets]
+        r = run(targets, threads)
+    n = len(kinds)
+    want_code = max((s.code for s in solos), key=lambda c: RANK.index(c) if c in RANK else len(RANK))
+    if r.code != want_code:
+        fails.append(['real-process-exit-status-not-highest-ranked', 'kinds %r: exit %d, single-target statuses %r' % (kinds, r.code, [s.code for s in solos])])
+    got = split(r.out, mode)
+    if got is None or len(got) != n:
+        fails.append(['real-process-number-of-result-blocks', 'kinds %r mode %s threads %d: %r blocks for %d targets; head %r' % (kinds, mode, threads, None if got is None else len(got), n, r.out[:200])])
+    else:
+        OOB = ('[exception] invalid ssh packet (block size)', '[exception] packet checksum CRC32 mismatch.')
+        def canon(b):
+            if mode == 'json':
+                if isinstance(b, dict) and 'error' in b:
+                    b = dict(b, error='\n'.join(l for l in b['error'].split('\n') if l not in OOB))
+                return json.dumps(b, sort_keys=True)
+            return '\n'.join(l for l in b.split('\n') if l not in OOB).strip('\n')
+        want = sorted(canon((split(s.out, mode) or [None])[0]) for s in solos)
+        have = sorted(canon(b) for b in got)
+        if want != have:
+            fails.append(['real-process-blocks-differ-from-single-target-runs', 'kinds %r mode %s threads %d' % (kinds, mode, threads)])
+    return mkres(case, nt=True, classes=['engine-B', 'mode:' + mode, 'threads:%d' % threads], fails=fails)
+
+
 def eval_case(case):
+    if case.get('kind') == 'real':
+        return eval_real(case)
     kinds, mode, threads = list(case['kinds']), case['mode'], case['threads']
     hosts = ['t%d' % i for i in range(len(kinds))]
     for d in case.get('dups', []):          # the same target listed again (same host, hence same kind)
@@ -222,6 +274,12 @@ def run(ctx):
     ctx.hyp('strat_list', 3000 if ctx.quick else 40000, label=1, shards=16)
     free = [{'kinds': [rng.choice(ALLK) for _ in range(rng.randint(2, 5))] + ['good', 'refused'], 'mode': rng.choice(['text', 'json']), 'threads': rng.choice([2, 3, 5]), 'choices': None} for _ in range(40 if ctx.quick else 600)]
     ctx.map(free)
+    real = []
+    for _ in range(8 if ctx.quick else 120):
+        b = [x for x in REAL_OK if x not in ('bad-block-size', 'bad-padding', 'probe-bad-block', 'ssh1-bad-crc')]
+        real.append({'kind': 'real', 'kinds': [rng.choice(sorted(HEALTHY)), rng.choice(b), rng.choice(sorted(HEALTHY)), rng.choice(b)], 'mode': rng.choice(['text', 'json']), 'threads': rng.choice([1, 2, 4])})
+    ctx.map(real, chunk=1)
+    ctx.note(traces_validated_against_impl=len(real))
     ctx.note(failure_archetypes=sorted(BAD), healthy_archetypes=sorted(HEALTHY))
     return ctx.finish('fault_enumeration', 'target lists of length 2-5 mixing 4 healthy archetypes with 16 failure archetypes (unresolvable, refused, connect timeout, silent, early close, close after banner, garbage banner, bad block size, bad padding, truncated KEXINIT, wrong first packet, probe-phase garbage / close / bad block, SSH-1 bad CRC / truncation): every failure archetype in every position of lists of length 2 and 3 (exhaustive), pairs of failures, Hypothesis lists, 1..n threads, text / batch / JSON, harness-owned schedules plus free-running runs; non-trivial = at least one healthy and one failing target',
                       assumptions=['block i is attributed to the i-th target to finish (known from the scheduler trace); blocks are compared with fresh single-target -T runs', 'an out-of-range port in the targets file is not a failure archetype of the statement (C18 covers it)'])
